@@ -58,6 +58,9 @@ ProtoProblem(req, cfg) ==
     \/ req.protoBad # "" /\ cfg.hasSelector
     \/ cfg.custom = "refuse" /\ (req.protos # <<>> \/ req.protoBad # "")
     \/ cfg.extMode = "customrefuse" /\ req.exts # <<>>
+    \* a Sec-WebSocket-Extensions value that breaks the list grammar (possibly after well-formed items):
+    \* refused by an upgrader that looks at the header, i.e. has an extension selector or negotiator
+    \/ req.extBad # "" /\ cfg.extMode \in {"select", "negotiate"}
 
 KeyOpen(req) == req.key = "nonb64"
 
@@ -100,7 +103,8 @@ SeqSet(s) == {s[i] : i \in 1..Len(s)}
 (*   accept   "absent" | "ok" | "varied" | "dup" | "otherkey" | "short"    *)
 (*            | "lowbits" (only the unused low bits of the last base64     *)
 (*            symbol differ) | "casefold" | "padded": all not the value    *)
-(*   protocol "none" | "requested" | "foreign"                             *)
+(*   protocol "none" | "requested" | "foreign" | "reqforeign" (a requested *)
+(*            one and, on another line, a foreign one) | "foreignlist"     *)
 (*   exts     "none" | "offered" | "offeredparams" | "offered2" (two       *)
 (*            offered ones in one line) | "foreign" | "mixed" | "mixedrev" *)
 (*            | "mixedmid" (a foreign one after / before / between offered)*)
